@@ -181,6 +181,39 @@ def fm_placements():
     return out
 
 
+def edge_families():
+    """small hand-shaped families for places the generators rarely reach: intermediate-reference values
+    0 / 1 / huge in every form, cookware and ingredient references whose amounts mix text and numbers in
+    both orders (grouping consumers), CRLF front matter with standard keys whose values draw analysis
+    diagnostics on a later YAML line after multi-byte text"""
+    out = []
+    for v in ["0", "1", "2", "00", "4294967295", "4294967296", "99999999999999999999", "-1", "+1", ""]:
+        for form in ["(%s)", "(~%s)", "(=%s)", "(=~%s)", "(~=%s)", "( %s )"]:
+            body = form % v
+            for pre in ["", "a\n\n", "= s\n\na\n\n", "> t\n\na\n\n> u\n\n"]:
+                out.append(pre.replace("\\n", "\n") + "@&" + body + "x{}")
+                out.append(pre.replace("\\n", "\n") + "#&" + body + "x{}")
+    amounts = ["big", "2", "1-2", "1/2", "", "big", "3"]
+    for mark, ref in (("#", "#&"), ("@", "@&")):
+        for a in amounts:
+            for b in amounts:
+                for c in ("", "2", "big"):
+                    t = "%span{%s} then %span{%s}" % (mark, a, ref, b)
+                    if c:
+                        t += " and %span{%s}" % (ref, c)
+                    out.append(t)
+                    out.append(">> [duplicate]: ref\n" + t.replace(ref, mark))
+    fm_tail = ["time: soon", "servings: abc", "tags: [a, [b]]", "locale: xx_yyy", "prep time: x\ncook time: y\ntime: z",
+               "time: 1h\nprep time: 5m\ncook time: 5m", "author: {nick: r}", "servings: [2, 2]"]
+    for nl in ("\n", "\r\n"):
+        for head in ["title: é", "title: é\nx: 名", "a: 1\nb: ñ\nc: 名é", "description: \"é\"\nk: v\nz: 名"]:
+            for t in fm_tail:
+                body = (head + "\n" + t).replace("\n", nl)
+                out.append("---" + nl + body + nl + "---" + nl + "step @a{1}")
+                out.append(nl + "---" + nl + body + nl + "---" + nl)
+    return out
+
+
 def grec_texts(rng, n, features=None, profiles=("canonical", "extended")):
     import grec
     out = []
